@@ -195,6 +195,12 @@ _orig_prove = core.Ctx.prove
 def _prove(self, prop, label, info=None):
     ncex = len(self.cex)
     ok = _orig_prove(self, prop, label, info)
+    if ok:
+        pl_ = getattr(self, "proved_labels", None)
+        if pl_ is None:
+            pl_ = self.proved_labels = []
+        if label not in pl_:
+            pl_.append(label)
     if not ok and len(self.cex) > ncex:
         cex = self.cex[-1]
         p = prop.e if isinstance(prop, core.SymBool) else prop
@@ -298,15 +304,19 @@ def _job(args):
             ncex = len(c.cex)
             h.sym(c, **params)
             # translator validation for harnesses with a validate() hook that do not capture path models themselves
-            if getattr(h, "validate", None) is not None and not getattr(h, "captures_itself", False) \
-                    and len(PENDING_VALIDATION) < 2 and len(c.cex) == ncex and getattr(c, "inputs", None):
+            limit = 2 if getattr(h, "validate", None) is not None else 1
+            if not getattr(h, "captures_itself", False) and len(PENDING_VALIDATION) < limit and len(c.cex) == ncex \
+                    and getattr(c, "inputs", None) and getattr(c, "proved_labels", None):
                 try:
                     m = dyadic_model(c, None) or c.model()
                 except z3.Z3Exception:
                     m = c.model()
                 if m is not None:
                     inp = concretize(getattr(c, "inputs", {}), m)
-                    PENDING_VALIDATION.append(_unjson(_jsonable(inp)))
+                    inp["__rng__"] = rng_table(c, m)
+                    inp = _unjson(_jsonable(inp))
+                    inp["__proved__"] = list(c.proved_labels)[:12]
+                    PENDING_VALIDATION.append(inp)
         try:
             ex.run(_run_path)
         finally:
@@ -341,13 +351,23 @@ def _job(args):
             out["cex"].append(dict(label=cx.label, inputs=_jsonable(inputs), info=_jsonable(cx.info),
                                    reproduced=bool(rep), candidate_only=rep is None, detail=str(detail)[:600]))
         out["n_cex_total"] = len(ex.cex)
-        if getattr(h, "validate", None) is not None and PENDING_VALIDATION:
+        if PENDING_VALIDATION and (getattr(h, "validate", None) is not None or h.replay is not None):
             nval, mism = 0, []
             for inp in list(PENDING_VALIDATION):
+                proved = inp.pop("__proved__", [])
                 try:
                     with warnings.catch_warnings():
                         warnings.simplefilter("ignore")
-                        bad = h.validate(inp, **params)
+                        if getattr(h, "validate", None) is not None:
+                            bad = h.validate(inp, **params)
+                        else:
+                            # generic: none of the predicates proven on this path may be reproducible by the harness's
+                            # own replay (which runs the real code on these inputs, over several seeds)
+                            bad = []
+                            for lb in proved:
+                                rep, _det = h.replay(dict(inp), lb, **params)
+                                if rep:
+                                    bad.append(lb)
                 except Exception as e:
                     bad = ["raised " + repr(e)[:120]]
                 if bad:
